@@ -74,8 +74,12 @@ static int jwt_encode(jwt_t *jwt, char **out)
 
 	/* First the header. */
 	ret = write_js(jwt->headers, &buf);
-	if (ret)
-		return 1; // LCOV_EXCL_LINE
+	if (ret) {
+		// LCOV_EXCL_START
+		jwt_write_error(jwt, "Error writing header");
+		return 1;
+		// LCOV_EXCL_STOP
+	}
 	/* Encode it */
 	head_len = jwt_base64uri_encode(&head, buf, (int)strlen(buf));
 	jwt_freemem(buf);
